@@ -441,6 +441,47 @@ fn main() {
             cx.observe(1 + (k / 3) % 4, &t, "mutated-other-entry");
         }
     }
+    // (3b) multi-byte UTF-8: the lexer slices by byte offset, so every string / comment / name
+    // position is exercised with 2-, 3- and 4-byte characters and combining marks, both at the
+    // start, inside and at the end of quoted strings and at random character boundaries.
+    const WIDE: [&str; 8] = ["é", "ß", "λ", "—", "日本", "🙂", "e\u{301}", "\u{2028}"];
+    let nwide = if thorough { 20000 } else { 4000 };
+    for k in 0..nwide {
+        let base = &valid_texts[rng.below(valid_texts.len())];
+        let w = WIDE[rng.below(WIDE.len())];
+        let mut t = base.clone();
+        // prefer a position just after / before a double quote when the text has a string
+        let quotes: Vec<usize> = t.char_indices().filter(|(_, c)| *c == '"').map(|(i, _)| i).collect();
+        let pos = if !quotes.is_empty() && rng.chance(2, 3) {
+            let q = quotes[rng.below(quotes.len())];
+            if rng.chance(1, 2) { q + 1 } else { q }
+        } else {
+            let bounds: Vec<usize> = t.char_indices().map(|(i, _)| i).chain(std::iter::once(t.len())).collect();
+            bounds[rng.below(bounds.len())]
+        };
+        t.insert_str(pos, w);
+        if rng.chance(1, 3) {
+            t.push_str(" # ");
+            t.push_str(WIDE[rng.below(WIDE.len())]);
+        }
+        cx.observe(0, &t, "multibyte");
+        if k % 2 == 0 {
+            cx.observe(1 + (k / 2) % 4, &t, "multibyte-other-entry");
+        }
+    }
+    for w in WIDE {
+        for t in [
+            format!("PRAGMA note \"caf{w}\""), format!("PRAGMA note \"{w}\""), format!("PRAGMA {w}"),
+            format!("INCLUDE \"{w}.quil\""), format!("PULSE 0 \"{w}\" flat(duration: 1.0, iq: 1.0)"),
+            format!("DEFFRAME 0 \"{w}x\":\n    DIRECTION: \"t{w}\""), format!("X 0 # {w}"), format!("# {w}\nX 0"),
+            format!("LABEL @{w}"), format!("DECLARE {w} BIT"), format!("DELAY 0 \"a{w}\" \"{w}b\" 1.0"),
+            format!("0 \"{w}\""), format!("0 1 \"x{w}y\""), format!("r{w}[0]"), format!("%{w}+1"), format!("\"{w}"),
+        ] {
+            for e in 0..5 {
+                cx.observe(e, &t, "multibyte-corpus");
+            }
+        }
+    }
     // hand-picked corpus: the defect witnesses and lexer corner cases
     for t in [
         "ADD ro +1", "AND ro +1", "EQ a b +1.0", "NONBLOCKING", "NONBLOCKING X 0", "NONBLOCKING\n",
